@@ -120,9 +120,9 @@ Definition rfc_sli_word (e : N * N * N) : bytes :=
    [overrun] trailing bits of the last byte of [bits] are not part of the string and are sent as 0. *)
 Definition rfc_rpsi (pt : N) (bits : bytes) (overrun : N) : bytes :=
   let fill := (4 - (2 + length bits) mod 4) mod 4 in
-  let body := match rev bits with
+  let body := match bits with
               | [] => []
-              | last :: r => rev r ++ [(last / 2 ^ overrun * 2 ^ overrun)%N]
+              | _ => removelast bits ++ [(last bits 0 / 2 ^ overrun * 2 ^ overrun)%N]
               end in
   [(N.of_nat (8 * fill) + overrun)%N; pt] ++ body ++ zeros fill.
 
